@@ -445,6 +445,23 @@ class C05(Prop):
             out.append(self._random_case(rng))
         for _ in range(nrand // 6):
             out.append(self._random_case(rng, wide=True))
+        # ---- MANY inners over a hot outer (17..40: bookkeeping thresholds such as "16 teardowns" — seed C05-8): a couple of
+        # hot inners plus many cold ones; cold inners beyond the eighth are empty so that value ranges stay disjoint
+        rng2 = random.Random(seed + 505)
+        for i in range(150 if quick else 1500):
+            nh = rng2.randint(1, 3)
+            ncold = rng2.randint(17, 40)
+            inners = [hot(j) for j in range(nh)]
+            for k in range(ncold):
+                inners.append(cold(nh + k, rng2.randint(0, 2) if nh + k < 8 else 0, "c"))
+            order = list(range(len(inners)))
+            if i % 3 == 0:
+                rng2.shuffle(order)
+            outer = [["outer", ["o", str(k)]] for k in order] + ([["outer", "c"]] if i % 4 else [])
+            tls = [hot_timeline(j, rng2.randint(0, 3), rng2.choice(["c", "c", None])) for j in range(nh)]
+            evs = random_interleaving(rng2, [outer] + tls)
+            limit = rng2.choice(["inf", "flatten", "concat", 1, 2, 5, 20])
+            out.append(mk_case(limit, inners, evs, "threads" if i % 5 == 0 else "local", kind="many-inners"))
         return out
 
     def _random_case(self, rng, wide=False):
